@@ -180,6 +180,58 @@ fn cons_case<C: CI, const K: usize, S: KS>(ctx: &mut Ctx) {
     });
 }
 
+/// k-mers iterated from sequences of 2^10 .. 2^16 symbols (65 .. 2049 machine words), structured contents: every
+/// k-mer compared with the model window (external iteration), internal iteration (count / last / fold), nth at
+/// block seams
+fn iter_huge<C: CI, const K: usize, S: KS>(ctx: &mut Ctx) {
+    let a = C::alpha();
+    let name = C::NAME;
+    if ctx.lite {
+        return;
+    }
+    let noff = n_offsets(a.bits);
+    ctx.group(&format!("{name}/kmers-iter-huge/K{K}"), |ctx| {
+        for (k, n) in huge_lengths(ctx, a.bits).into_iter().enumerate().filter(|(k, _)| (k + K) % 3 == 0) {
+            let codes = structured_codes(&mut ctx.rng, a, n, k);
+            let pad = (k * 3 + K) % noff;
+            let p = Padded::<C>::new(&mut ctx.rng, pad, &codes, 2);
+            let s = p.slice();
+            let expect = n - K + 1;
+            ctx.eval();
+            let what = format!("{name} K={K} n={n} pad={pad} (huge)");
+            let r = observe(|| {
+                let mut it = s.kmers::<K>();
+                let mut first_bad: Option<usize> = None;
+                let mut cnt = 0usize;
+                for i in 0..expect + 5 {
+                    match it.next() {
+                        Some(km) => {
+                            if first_bad.is_none() && (i + K > n || km.bs as u128 != model::pack_u128(a.bits, &codes[i..i + K])) {
+                                first_bad = Some(i);
+                            }
+                            cnt += 1;
+                        }
+                        None => break,
+                    }
+                }
+                let folded = s.kmers::<K>().fold(0u128, |acc, km| acc.wrapping_mul(31).wrapping_add(km.bs as u128));
+                (cnt, first_bad, it.next().is_none(), s.kmers::<K>().count(), s.kmers::<K>().last().map(|km| km.bs as u128), folded)
+            });
+            let want_fold = codes.windows(K).fold(0u128, |acc, w| acc.wrapping_mul(31).wrapping_add(model::pack_u128(a.bits, w)));
+            check!(ctx, r == Ok((expect, None, true, expect, Some(model::pack_u128(a.bits, &codes[n - K..])), want_fold)), format!("kmers|{name}|huge"), "{what}: (count by next(), first wrong k-mer, fused, count(), last(), fold) = {:x?}; expected {expect} k-mers equal to the model windows", r);
+            for st in [1023usize, 1024, 4095, 4096, 8191, 8192, 16384, 32768, expect - 1] {
+                if st >= expect {
+                    continue;
+                }
+                let got = observe(|| s.kmers::<K>().nth(st).map(|km| km.bs as u128));
+                check!(ctx, got == Ok(Some(model::pack_u128(a.bits, &codes[st..st + K]))), format!("kmers.nth|{name}|huge"), "{what}: nth({st}) = {:x?}", got);
+            }
+            cell!(ctx, "{name}/kmers-huge/2^{}", usize::BITS - n.leading_zeros());
+            ctx.nontrivial(fp(&[b"kh", name.as_bytes(), &[K as u8, k as u8], &(n as u64).to_le_bytes()]));
+        }
+    });
+}
+
 /// TryFrom<Seq> exists for usize storage only
 fn cons_owned<C: CI, const K: usize, S: KS>(ctx: &mut Ctx) {
     let a = C::alpha();
@@ -324,6 +376,7 @@ fn main() {
             for_each_k128!(cons_case, ctx);
             for_each_k64!(cons_owned, usize, ctx);
         }
+        for_each_k_small!(iter_huge, usize, ctx);
         literals(ctx);
         ctx.note("rule", json!("every (codec,K) that fits in 64 bits: kmers::<K>() over slices of length 0, K-1, K, K+1, K+7, 2K+3 and 3 words+1 at bit offsets (quick: every 5th rotating + 0; thorough: all), drained with a step bound, each k-mer compared with the model window by display AND packed integer, with windows(K) item i and with &slice[i..i+K]; Deref / Seq::from every 7th. nth/skip/step_by/count/last/size_hint on the k-mer iterator; k-mers ending exactly at the end of exact-capacity allocations and static literals (for Miri/ASan). Every (codec,K,storage in usize/u64/u128): try_from(&slice) for lengths K, K-1, K+1, 0, 2K (Ok iff K), unsafe_from_seqslice, from_str for valid text, K-1, K+1, empty, one bad byte, multi-byte characters; TryFrom<Seq> (usize). Distinct = (codec,K,pad,content)."));
     });
